@@ -33,7 +33,7 @@ class C04(Check):
     RULE = ('case = 1..3 generated module classes (full feature mix) + <= 40 change/do requests from 1..3 clients with '
             'payloads from the boundary catalogue of the described datainfo (valid / wrong JSON kind / out of range / '
             'wrong length / unknown member / partial struct / null) aimed at exported, unexported, misspelt and '
-            'wrong-kind names + limit-moving requests; distinct = different (case digest, schedule digest); '
+            'wrong-kind names + limit-moving requests + (40 % of the cases) 2..8 limit moves by a driver-side thread; distinct = different (case digest, schedule digest); '
             'non-trivial = >= 1 request the reference validator must-reject and >= 1 it must-accept were sent and '
             'both got a reply')
     REAL = ['frappy.protocol.dispatcher (_setParameterValue, _execute_command, handle_change/do)',
